@@ -137,7 +137,8 @@ class C15(Prop):
         "flushLeftInserts_spec", "markFragmentsOld_row_spec", "markFragmentsOld_rows", "generated_gap_missing_codes",
         "wuss2ct_accepts_iff", "wuss2ct_involution", "wuss2ct_pairs_matched", "wuss2ct_of_labels", "ct2wuss_nested_labels", "nested_roundtrip", "nested_roundtrip_total", "simple_nested_roundtrip_total", "removeBroken_nested", "repaired_then_compacted_balanced",
         "wuss2ct_nopk_nested", "nopk_wuss_roundtrip", "nopk_repaired_then_compacted",
-        "compacted_pairs", "newPos_agrees", "nopk_columnSubset_pairs", "wuss2ct_of_class_labels", "wuss_ct_wuss_ct",
+        "compacted_pairs", "newPos_agrees", "nopk_columnSubset_pairs", "wuss2ct_of_class_labels", "pk_roundtrip", "ct2wuss_is_class_labelling", "wuss_ct_wuss_ct_pk",
+        "removeBroken_pairs_pk", "columnSubset_pairs_pk", "wuss_ct_wuss_ct",
         "removeBroken_keeps_exactly", "removeBroken_rejects_unbalanced",
         "ct2wuss_shape", "wussFull_nopk", "wussReverse_involutive")]
     claimed = True
@@ -155,11 +156,12 @@ class C15(Prop):
                   "retained; UNCONDITIONAL nested round trip: esl_ct2wuss and esl_ct2simplewuss succeed on every symmetric nested table and wuss2ct(ct2wuss ct) = ct, hence wuss->ct->wuss->ct = id and 'SS stays balanced WUSS with exactly "
                   "the retained pairs' for every letter-free SS line through repair + compaction; esl_wuss_reverse involutive. The hand model is tied to the working tree by an exact field-by-field differential run; "
                   "monitors restate the property on the implementation's own dumps against independent Python readers.")
-    level_note = ("Partial: WITH pseudoknot letters the wuss->ct->wuss->ct round trip (hence the pair set of a re-encoded pseudoknotted SS line after RemoveBrokenBasepairs) is compared on every run against an "
-                  "independent WUSS reader (0 mismatches in 240000 random crossing tables + 90000 thorough cases) but not proved; esl_ct2wuss may refuse (eslEINVAL, documented) a table whose greedy lettering "
-                  "needs more than A..Z; after compaction the re-indexed pair set of an SS line is monitored, only its balance is proved. Trusted: Lean kernel + propext/Classical.choice/Quot.sound; fidelity of "
-                  "the hand model is checked, not proved, by the differential run; FlushLeftInserts is modelled as an append-only output (b <= a in the C loop); float thresholds of MarkFragments are "
-                  "evaluated by the driver (L0).")
+    level_note = ("Round 2: the pseudoknotted round trip is now PROVED (pk_roundtrip: for every symmetric table, crossing pairs included, esl_ct2wuss = eslOK implies wuss2ct(ct2wuss ct) = ct; invariant over "
+                  "the rb[]/auxpk lettering loop), hence wuss->ct->wuss->ct preserves the pair table of ANY balanced WUSS string (wuss_ct_wuss_ct_pk), RemoveBrokenBasepairs spells exactly the retained pairs "
+                  "(removeBroken_pairs_pk) and the compacted SS line reads as those pairs renumbered (compacted_pairs, columnSubset_pairs_pk). Remaining conditions: for tables WITH crossing pairs the "
+                  "theorems are conditional on esl_ct2wuss returning eslOK (it may refuse, eslEINVAL documented, a table whose greedy lettering needs more than A..Z; on nested / letter-free input success "
+                  "is proved). Trusted: Lean kernel + propext/Classical.choice/Quot.sound; fidelity of the hand model is checked, not proved, by the differential run; FlushLeftInserts is modelled as an "
+                  "append-only output (b <= a in the C loop); float thresholds of MarkFragments are evaluated by the driver (L0).")
     diverge_is_violation = True
     fault_is_output = True       # faults are classified by monitor() (known finding vs. new)
     trusted_base = ["hand model of esl_msa.c/esl_wuss.c tied by exact field-by-field differential run (h_msaops.c, ASan+UBSan build of the working tree)",
